@@ -3,6 +3,8 @@ use crate::common::{Out, Rng};
 use crate::ops::ImplState;
 
 fn value(rng: &mut Rng) -> String {
+    // GUIs send negative clocks when a flag has fallen: no time remains, the budget must be 0
+    if rng.chance(1, 25) { return format!("-{}", 1 + rng.below(5000)); }
     match rng.below(12) {
         0 => "0".into(), 1 => "1".into(), 2 => "4999".into(), 3 => "5000".into(), 4 => "5001".into(), 5 => "5025".into(),
         6 => (rng.below(100_000_000)).to_string(), 7 => (rng.below(1u64 << 40)).to_string(),
